@@ -55,7 +55,7 @@ def prepare(verbose=False):
         olds = []
         for old in os.listdir(SCRATCH_ROOT):
             p = os.path.join(SCRATCH_ROOT, old)
-            if os.path.isdir(p) and old != key:
+            if os.path.isdir(p) and old != key and old != 'kani':
                 try: olds.append((os.path.getmtime(p), p))
                 except OSError: pass
         olds.sort(reverse=True)
